@@ -104,54 +104,60 @@ fn c04_type31() {
 #[kani::stub(alloc::fmt::format, crate::stubs::fmt_format)]
 #[kani::stub(<[u8; 4] as core::convert::TryFrom<&[u8]>>::try_from, crate::stubs::array_try_from)]
 fn c04_type31_one_block_free() {
-    type31_one_block(false);
-}
-
-/// The unknown-name / odd gate-count / odd word-size paths at an affordable cost: one block at the
-/// canonical offset 36 whose type, ASCII name (all 2^21), gate count, word size, scale and offset are
-/// free; every other byte zero.
-#[kani::proof]
-#[kani::unwind(12)]
-#[kani::stub(alloc::fmt::format, crate::stubs::fmt_format)]
-#[kani::stub(<[u8; 4] as core::convert::TryFrom<&[u8]>>::try_from, crate::stubs::array_try_from)]
-fn c04_type31_one_block_ascii_name() {
-    type31_one_block(true);
-}
-
-fn type31_one_block(ascii: bool) {
-    let mut b: [u8; 76] = if ascii { [0u8; 76] } else { kani::any() };
+    let mut b: [u8; 76] = kani::any();
     b[30] = 0;
     b[31] = 1;
-    if ascii {
-        // concrete layout (pointer 36, zero header); free: block type, ASCII name (all 2^21),
-        // gate count, word size, scale and offset words
-        b[35] = 36;
-        let f: [u8; 15] = kani::any();
-        kani::assume(f[1] < 0x80 && f[2] < 0x80 && f[3] < 0x80);
-        b[36] = f[0];
-        b[37] = f[1];
-        b[38] = f[2];
-        b[39] = f[3];
-        b[44] = f[4];
-        b[45] = f[5]; // gates
-        b[55] = f[6]; // word size
-        let mut i = 0;
-        while i < 8 {
-            b[56 + i] = f[7 + i]; // scale, offset
-            i += 1;
-        }
-    }
+    type31_run(&b);
+}
+
+fn type31_run(b: &[u8; 76]) {
     let mut c = Cursor::new(&b[..]);
     let r = decode_digital_radar_data(&mut c);
     wit!(r.is_err());
-    wit!(r.is_ok() && b[37] == b'R' && b[38] == b'E' && b[39] == b'F' && b[35] == 36);
-    wit!(b[35] == 36 && b[34] == 0 && b[33] == 0 && b[32] == 0 && b[37] == b'X');
     if let Ok(m) = &r {
         let q = m.radial();
         core::mem::forget(q);
     }
     core::mem::forget(r);
 }
+
+/// One block at the canonical offset 36 with a CONCRETE name (free names cost > 16 GB: every
+/// comparison against the ten literals forks) and free block type, gate count, word size, scale and
+/// offset; every other byte zero.  Names: unknown ASCII, a moment, a non-UTF-8 name.
+fn type31_named(name: [u8; 3]) {
+    let mut b = [0u8; 76];
+    b[31] = 1;
+    b[35] = 36;
+    let f: [u8; 12] = kani::any();
+    b[36] = f[0];
+    b[37] = name[0];
+    b[38] = name[1];
+    b[39] = name[2];
+    b[44] = f[1];
+    b[45] = f[2]; // gates
+    b[55] = f[3]; // word size
+    let mut i = 0;
+    while i < 8 {
+        b[56 + i] = f[4 + i]; // scale, offset
+        i += 1;
+    }
+    type31_run(&b);
+}
+
+macro_rules! named_harness {
+    ($name:ident, $n:expr) => {
+        #[kani::proof]
+        #[kani::unwind(12)]
+        #[kani::stub(alloc::fmt::format, crate::stubs::fmt_format)]
+        #[kani::stub(<[u8; 4] as core::convert::TryFrom<&[u8]>>::try_from, crate::stubs::array_try_from)]
+        fn $name() {
+            type31_named($n);
+        }
+    };
+}
+named_harness!(c04_type31_unknown_name, *b"XYZ");
+named_harness!(c04_type31_moment_free_sizes, *b"REF");
+named_harness!(c04_type31_non_utf8_name, [0xFF, 0xFE, 0x41]);
 
 /// VCP on a fixed 2-cut frame with every byte free (declared size, cut count, all fields).
 #[kani::proof]
@@ -165,17 +171,17 @@ fn c04_vcp_fixed_frame() {
     core::mem::forget(r);
 }
 
-/// The message-stream loop on a 76-byte stream holding one type-31 message with one block: the
-/// message header's size fields (segment size, segment count, segment number), the block type and
-/// the (ASCII) block name are free, everything else is zero.  Value or error, and the loop ends:
-/// every iteration must consume a header (unwinding assertions).
+/// The message-stream loop on a 76-byte stream holding one type-31 message whose only block has
+/// the unknown name "XYZ": the message header's size fields (segment size, count, number) are free,
+/// everything else concrete (free block names inside the loop cost > 24 GB).  Value or error, and the
+/// loop ends: every iteration must consume a header (unwinding assertions).
 #[kani::proof]
 #[kani::unwind(12)]
 #[kani::stub(alloc::fmt::format, crate::stubs::fmt_format)]
 #[kani::stub(<[u8; 4] as core::convert::TryFrom<&[u8]>>::try_from, crate::stubs::array_try_from)]
-fn c04_messages_short_stream() {
+fn c04_messages_unknown_block() {
     let mut b = [0u8; 28 + 32 + 4 + 12];
-    let f: [u8; 10] = kani::any();
+    let f: [u8; 6] = kani::any();
     b[12] = f[0];
     b[13] = f[1]; // segment size
     b[15] = 31;
@@ -186,14 +192,13 @@ fn c04_messages_short_stream() {
     let h = 28;
     b[h + 31] = 1;
     b[h + 35] = 36;
-    b[h + 36] = f[6];
-    kani::assume(f[7] < 0x80 && f[8] < 0x80 && f[9] < 0x80);
-    b[h + 37] = f[7];
-    b[h + 38] = f[8];
-    b[h + 39] = f[9];
+    b[h + 36] = b'D';
+    b[h + 37] = b'X';
+    b[h + 38] = b'Y';
+    b[h + 39] = b'Z';
     let mut c = Cursor::new(&b[..]);
     let r = decode_messages(&mut c);
+    assert!(r.is_err(), "C04: an unknown block name is an error");
     wit!(r.is_err());
-    wit!(r.is_ok());
     core::mem::forget(r);
 }
